@@ -167,17 +167,22 @@ WfOps == {op \in Ops : WellFormedOp(op)}
 RandTx(x) == LET n == RandomElement({j \in 1..MaxOps : x >= 0})
              IN [i \in 1..n |-> RandomElement({op \in WfOps : x + i >= 0})]
 
+\* W(p): enabled with probability p% (simulation picks uniformly among the enabled
+\* disjuncts; the weights steer it towards deep pipelines: several log files at different
+\* stages, recycled files, crashes and restarts in such states)
+W(p) == RandomElement({j \in 1..100 : calls >= 0}) <= p
+Deep == Len(logs) >= 2
 GenNext ==
     \/ (LET tx == RandTx(calls) IN Commit(tx) \/ Reject(tx))
-    \/ (LET tx == RandTx(calls + 1) IN Commit(tx) \/ Reject(tx))
-    \/ ProcessCommit \/ FlushLog \/ EnactOne \/ LogEof \/ Clean
-    \/ ((queue # <<>> \/ logs # <<>> \/ RandomElement({j \in 1..6 : calls >= 0}) = 1) /\ CloseOpen)
-    \/ ((queue # <<>> \/ logs # <<>> \/ RandomElement({j \in 1..6 : calls >= 0}) = 1) /\ Crash)
+    \/ (W(IF Len(queue) >= 2 THEN 10 ELSE 50) /\ LET tx == RandTx(calls + 1) IN Commit(tx) \/ Reject(tx))
+    \/ ProcessCommit \/ (W(60) /\ FlushLog) \/ (W(70) /\ EnactOne) \/ LogEof \/ (W(60) /\ Clean)
+    \/ (W(IF Deep \/ queue # <<>> THEN 12 ELSE 3) /\ CloseOpen)
+    \/ (W(IF IdInversion THEN 70 ELSE IF Deep THEN 25 ELSE 4) /\ Crash)
     \/ RecoverStart \/ RecoverRec \/ RecoverDone
-    \/ (\E t \in BOOLEAN : IoFailAppend(t))
-    \/ (LET n == NextToEnact IN n.r # 0 /\ IoFailEnact(RandomElement(SUBSET DOMAIN logs[n.f].recs[n.r].w)))
-    \/ IoFailOther \/ DropErr
-    \/ (\E c \in Cols : CurOpen(c)) \/ (RandomElement({j \in 1..8 : calls >= 0}) = 1 /\ CurClose)
+    \/ (W(15) /\ \E t \in BOOLEAN : IoFailAppend(t))
+    \/ (W(15) /\ LET n == NextToEnact IN n.r # 0 /\ IoFailEnact(RandomElement(SUBSET DOMAIN logs[n.f].recs[n.r].w)))
+    \/ (W(8) /\ IoFailOther) \/ DropErr
+    \/ (\E c \in Cols : CurOpen(c)) \/ (W(12) /\ CurClose)
     \/ CurSeek(RandomElement({k \in Keys : calls >= 0})) \/ CurFirst \/ CurLast
     \/ CurNext \/ CurPrev \/ CurNext \/ CurPrev
     \/ (Len(logs) > 0 /\ LET f == RandomElement({i \in 1..Len(logs) : calls >= 0})
